@@ -243,8 +243,8 @@ def oracle_truncate(ctx, pop, cid, k, res):
         ctx.oracle_failures.append({"what": what, "input": inp, "match": {"kind": kind}})
 
     designs = set(design(x) for x in pop)
-    if any(id(x) not in cid for x in res):
-        fail("truncation returned an object that is not in the population", "truncate_member")
+    if any(not any(x is y for y in pop) for x in res):
+        fail("truncation returned an object that is not in the population it was given", "truncate_member")
         return
     if len(res) != min(k, len(designs)):
         fail("truncation to %d of %d distinct designs returned %d individuals" % (k, len(designs), len(res)), "truncate_length")
@@ -289,8 +289,8 @@ def oracle_tournament(ctx, pop, cid, picks, w):
     def fail(what, kind):
         ctx.oracle_failures.append({"what": what, "input": inp, "match": {"kind": kind}})
 
-    if id(w) not in cid:
-        fail("tournament returned an object that is not in the population", "tournament_member")
+    if not any(w is y for y in pop):
+        fail("tournament returned an object that is not in the population it was given", "tournament_member")
         return
     if picks is None:
         return
@@ -482,9 +482,15 @@ def run(ctx):
             if len(ks) > 7:
                 ks = sorted(set(rng.sample(ks, 5) + [1, ndesigns, n + 2]))
             rng.shuffle(ks)
+            if n >= 2:                      # sizes asked again on the same list object after a member was removed in place
+                ks = ks + [("drop", ks[0]), ("drop", rng.choice(ks))]
             inp = list(pop)
             for turn, k in enumerate(ks):
-                if rng.random() < 0.6:
+                if isinstance(k, tuple):
+                    k = k[1]
+                    if len(inp) > 1:
+                        del inp[rng.randrange(len(inp))]
+                elif rng.random() < 0.6:
                     rng.shuffle(inp)
                 enc_pop = ll([enc_ind(x, cid) for x in inp])          # what the implementation is given
                 snapshot = list(inp)
@@ -496,7 +502,7 @@ def run(ctx):
                     del ops.set
                 order = RecSet.order if RecSet.order is not None else list(set(snapshot))
                 cases.append("CTrunc %s %s %s" % (enc_pop, ll([cid[id(x)] for x in order], nl), nl(k)))
-                expected.append("OIds %s" % ll([cid.get(id(x), 999999) for x in res], nl))
+                expected.append("OIds %s" % ll(sorted(cid.get(id(x), 999999) for x in res), nl))
                 meta.append({"op": "nondominated_truncate", "size": k,
                              "population": [{"id": cid[id(x)], "vector": [float(v) for v in x.vector],
                                              "costs_signed": [float(v) for v in x.costs_signed],
@@ -505,9 +511,10 @@ def run(ctx):
                 oracle_truncate(ctx, snapshot, cid, k, res)
                 stats["truncate_cases"] += 1
                 stats["truncate_on_reused_list_object"] += int(turn > 0)
-                if ndesigns < n:
+                nd_now = len(set(design(x) for x in snapshot))
+                if nd_now < len(snapshot):
                     stats["truncate_with_duplicates"] += 1
-                if k >= ndesigns:
+                if k >= nd_now:
                     stats["truncate_k_ge_distinct"] += 1
                 elif res:
                     cut = max(x.features["front_number"] for x in res)
@@ -517,7 +524,7 @@ def run(ctx):
                 if n >= 5 and 1 < k < n and ndesigns < n and len(ctx.samples) < 3:
                     ctx.sample(meta[-1])
                 if len(inp) != len(snapshot) or any(a is not b for a, b in zip(inp, snapshot)):
-                    inp = list(snapshot)          # the call modified its argument: keep the stream going on a sane list
+                    inp[:] = snapshot             # the call modified its argument: keep the stream going on a sane list
 
             # 3. binary tournaments (same selector, same list object shuffled in place)
             if merged is not None:
@@ -527,8 +534,13 @@ def run(ctx):
             try:
                 inp = list(pop)
                 for _t in range((min(4 * n, 16) if merged is not None else min(2 * n, 8)) if n > 1 else 1):
-                    if rng.random() < 0.7:
+                    r = rng.random()
+                    if r < 0.6:
                         rng.shuffle(inp)
+                    elif r < 0.75 and len(inp) > 1:
+                        del inp[rng.randrange(len(inp))]          # same list object, one member fewer
+                    elif r < 0.8 and len(inp) < n:
+                        inp[:] = pop
                     enc_pop = ll([enc_ind(x, cid) for x in inp])
                     snapshot = list(inp)
                     tape.samples, tape.choices = [], []
@@ -557,7 +569,7 @@ def run(ctx):
                             snapshot[smp[0]].features["front_number"] == snapshot[smp[1]].features["front_number"]:
                         ctx.sample(meta[-1])
                     if len(inp) != len(snapshot) or any(a is not b for a, b in zip(inp, snapshot)):
-                        inp = list(snapshot)
+                        inp[:] = snapshot
             finally:
                 ops.random = real_random
             set_features(pop, ranked)
